@@ -522,6 +522,37 @@ func (e *ControllerEngine) StopWatches(ctx context.Context, name string, ws ...W
 	return stopped, nil
 }
 
+// removeInformer removes the informer for the supplied kind, and forgets every
+// controller's watches of that kind. The event handlers of those watches are
+// removed together with the informer, so the watches are dead. If we kept them
+// only the first controller to call StartWatches would get its watch back: it
+// re-creates the informer, and every other controller would then believe its
+// (dead) watch is fine. We hold the lock of every controller while we do this
+// so that no controller can start a watch on the informer we're removing, or
+// have a watch it just started on a new informer forgotten.
+func (e *ControllerEngine) removeInformer(ctx context.Context, obj client.Object, gvk schema.GroupVersionKind) error {
+	e.mx.Lock()
+	defer e.mx.Unlock()
+
+	for _, c := range e.controllers {
+		c.mx.Lock()
+		defer c.mx.Unlock() //nolint:gocritic // We want to hold all locks until we return.
+	}
+
+	if err := e.infs.RemoveInformer(ctx, obj); err != nil {
+		return err
+	}
+
+	for _, c := range e.controllers {
+		for wid := range c.sources {
+			if wid.GVK == gvk {
+				delete(c.sources, wid)
+			}
+		}
+	}
+	return nil
+}
+
 // GarbageCollectCustomResourceInformers garbage collects informers for custom
 // resources (e.g. Crossplane XRs, claims and composed resources) when the CRD
 // that defines them is deleted. The garbage collector runs until the supplied
@@ -554,7 +585,7 @@ func (e *ControllerEngine) GarbageCollectCustomResourceInformers(ctx context.Con
 				u := &unstructured.Unstructured{}
 				u.SetGroupVersionKind(gvk)
 
-				if err := e.infs.RemoveInformer(ctx, u); err != nil {
+				if err := e.removeInformer(ctx, u, gvk); err != nil {
 					e.log.Info("Cannot remove informer for type defined by deleted CustomResourceDefinition", "crd", crd.GetName(), "gvk", gvk)
 					continue
 				}
